@@ -14,18 +14,28 @@ func VerifC19Emit() {
 	vFundGas(self, g)
 	who := vInt("invoker") // committee member index, n = a stranger
 	vAssume(who >= 0 && who <= n)
+	// param 3 = 1: the Inner Ring is re-designated (ir* -> nir*, same size) in the block right before the
+	// emission; the nodes to pay are the ones in force now, i.e. the new ones, and a dropped node gets nothing
+	pfx := "ir"
+	if vParam(3) == 1 {
+		pfx = "nir"
+		vSetIRNamed(pfx, irn)
+	}
 	for i := 0; i < n; i++ {
 		vSign(vMemberAcct(i), who == i)
 	}
 	vSign(vAcct("stranger"), true)
 	ok, _ := vInvoke("alphabet", "emit")
 	pg, cg := vGasOf(proxy), vGasOf(self)
-	first, last := vGasOf(vAcct("ir0")), vGasOf(vAcct("ir0"))
+	first, last := vGasOf(vAcct(pfx+"0")), vGasOf(vAcct(pfx+"0"))
 	if irn > 1 {
-		last = vGasOf(vAcct("ir1"))
+		last = vGasOf(vAcct(pfx + "1"))
 	}
 	if irn > 2 {
-		last = vGasOf(vAcct("ir2"))
+		last = vGasOf(vAcct(pfx + "2"))
+	}
+	if vParam(3) == 1 {
+		vAssert(vGasOf(vAcct("ir0")) == 0, "C19/a-node-the-last-designation-dropped-gets-nothing")
 	}
 	vAssert(ok == (who == idx && g/2 > 0), "C19/emit-only-by-its-own-alphabet-node-and-with-gas")
 	vRequire(ok, "emitted")
